@@ -253,6 +253,12 @@ func (e *env) pkgObject(obj types.Object) sval {
 		case constant.Bool:
 			return sval{t: fmt.Sprint(constant.BoolVal(o.Val())), sort: "Bool", gt: o.Type()}
 		}
+	case *types.Func:
+		if pk := c.P.SSA.Package(o.Pkg()); pk != nil {
+			if f := pk.Func(o.Name()); f != nil {
+				return sval{t: c.fnConst(f), sort: "Fn", gt: o.Type()}
+			}
+		}
 	case *types.Var:
 		if e.st == nil {
 			return e.fail("global %s needs a heap state", o.Name())
